@@ -129,3 +129,8 @@ CHECKS["C20"] = {"pkg": "wallet", "shards": 12, "helpers": ["cmd/savehelper"], "
     "technique": "fault injection over generated save scenarios: every file-system syscall of the save is enumerated with strace and the process is killed immediately before it (plus torn-write variants); restart oracle old-or-new",
     "text": "For generated wallet / key-value save scenarios the helper process performing the save is killed (SIGKILL injected by strace) before each of its file-system syscalls in turn, so every prefix of the save's file operations is materialised on a real directory; torn variants truncate the last written file. A fresh wallet service / storage manager must start on every crash state and hold the old or the new content. The crash points are those of the real implementation, whatever it is changed to; scenarios are sampled.",
     "note": "ordered-write crash model (no reordering below the syscall level); needs a working ptrace (strace); scenario content is sampled, crash points per scenario are enumerated exhaustively"}
+
+CHECKS["C08"] = {"pkg": "ledger", "shards": 14, "level": "fault_enumeration", "timeout_quick": 900, "timeout_thorough": 3000,
+    "technique": "fault enumeration over generated node life cycles: every bolt commit boundary (verif commit hook) and reconstructed write-prefix states inside each commit are restarted and must converge to the never-crashed twin; watchdog on the node's own verification",
+    "note": LN + "; commit boundaries come from the hook in dbutil.DB.Update; intra-commit states follow bolt's documented write order (data pages ascending, sync, meta page, sync) and are rebuilt from page diffs of the before/after images",
+    "text": "For each generated life cycle (database creation, version stamp, visor.New, genesis, 2-8 blocks interleaved with pool updates) all crash states are enumerated: the file after every commit and, inside every commit, prefixes of the changed data pages with torn last page and torn meta page. Every state is restarted with and without forced verification (and through ResetCorruptDB), must pass CheckDatabase within 20 s, accept the remaining blocks and end with the twin's chain, unspent set, history and views. Life cycles are sampled, crash states per life cycle are enumerated (prefix lengths sampled when a commit changes more than 4 pages)."}
